@@ -70,27 +70,69 @@ def run(ctx):
               "the min/max modes do not open the reader with maxmins=True", key="maxmins")
     # find_min_max
     fm = prog.func(ME, "Menu.find_min_max", P)
-    e = {}
-    for n in walk_no_nested(fm.node):
-        if isinstance(n, ast.Assign):
-            e.setdefault(norm(n.targets[0]), []).append(norm(n.value))
-    want_min = ["np.min(self.cells[self.limit_level]['mins'][field])",
-                "np.min([self.cells[lv]['mins'][field].min() for lv in range(self.limit_level + 1)])",
-                "str('{:.3}'.format(minimum))", "' ' + minimum"]
-    want_max = ["np.max(self.cells[self.limit_level]['maxs'][field])",
-                "np.max([self.cells[lv]['maxs'][field].max() for lv in range(self.limit_level + 1)])",
-                "str('{:.3}'.format(maximum))", "' ' + maximum"]
-    ctx.check(e.get("minimum") == want_min, f"{P}.REDUCER-PAIRING", fm.site,
-              "minimum = min over the 'mins' table (finest level only, or all levels 0..limit), 3 significant digits",
-              f"minimum is computed as {e.get('minimum')}", key="min", where=loc(fm, fm.node))
-    ctx.check(e.get("maximum") == want_max, f"{P}.REDUCER-PAIRING", fm.site,
-              "maximum = max over the 'maxs' table (finest level only, or all levels 0..limit), 3 significant digits",
-              f"maximum is computed as {e.get('maximum')}", key="max", where=loc(fm, fm.node))
+    # reducer <-> table pairing, decided on the reducer calls themselves (wherever their results are named)
+    red = []
+    for c in walk_no_nested(fm.node):
+        if isinstance(c, ast.Call) and norm(c.func) in ("np.min", "np.max", "np.nanmin", "np.nanmax", "np.amin", "np.amax",
+                                                          "min", "max") and c.args:
+            kind = "min" if "min" in norm(c.func) else "max"
+            tables = {k.value for a in c.args for k in ast.walk(a) if isinstance(k, ast.Constant) and k.value in ("mins", "maxs")}
+            finest = any(norm(x) == "self.cells[self.limit_level]" for a in c.args for x in ast.walk(a))
+            alllv = any(isinstance(x, (ast.ListComp, ast.GeneratorExp)) and
+                        norm(x.generators[0].iter) in ("range(self.limit_level + 1)", "range(1 + self.limit_level)")
+                        for a in c.args for x in ast.walk(a))
+            if tables:
+                red.append((c, kind, tables, finest, alllv, norm(c.func)))
+    for kind, table in (("min", "mins"), ("max", "maxs")):
+        mine = [r for r in red if r[1] == kind]
+        wrong = [r for r in mine if r[2] != {table}]
+        builtin = [r for r in mine if r[5] in ("min", "max")]
+        scopes = {("finest" if r[3] else "") + ("all" if r[4] else "") for r in mine}
+        ok = len(mine) == 2 and not wrong and not builtin and scopes == {"finest", "all"}
+        ctx.check(ok, f"{P}.REDUCER-PAIRING", fm.site,
+                  f"{kind}imum = np.{kind} over the '{table}' table: of the finest selected level under finest_lv, of all "
+                  f"levels 0..limit otherwise",
+                  f"{kind}imum reducers are {[norm(r[0])[:90] for r in mine]}: " +
+                  ("a reducer reads the other table; " if wrong else "") +
+                  ("the builtin compares with < / > and keeps or drops a NaN depending on where it sits, np."
+                   f"{kind} propagates it; " if builtin else "") +
+                  (f"level scopes are {sorted(scopes)}, expected one finest-level and one all-levels reducer" if scopes != {"finest", "all"} or len(mine) != 2 else ""),
+                  key=kind, where=loc(fm, mine[0][0]) if mine else loc(fm, fm.node), semantic=True)
+    # three significant digits on both values
+    specs = [norm(c.func.value) for c in walk_no_nested(fm.node) if isinstance(c, ast.Call) and isinstance(c.func, ast.Attribute)
+             and c.func.attr == "format" and isinstance(c.func.value, ast.Constant)]
+    specs += ["{:" + norm(v.format_spec.values[0])[1:-1] + "}" for v in walk_no_nested(fm.node)
+              if isinstance(v, ast.FormattedValue) and v.format_spec is not None and v.format_spec.values
+              and isinstance(v.format_spec.values[0], ast.Constant)]
+    specs = [x.strip("'\"") for x in specs]
+    ctx.check(len(specs) == 2 and set(specs) == {"{:.3}"}, f"{P}.REDUCER-PAIRING", fm.site,
+              "both extrema are formatted to three significant digits ('{:.3}')",
+              f"format specifications applied to the extrema are {specs}; the table shows three significant digits "
+              f"('{{:.3}}') for the minimum and the maximum", key="digits", semantic=True)
+    # which reducer each element of the entry comes from (name flow through the assignments of the loop body)
+    def origin(name, seen=()):
+        out = set()
+        for n in walk_no_nested(fm.node):
+            if isinstance(n, ast.Assign) and norm(n.targets[0]) == name:
+                for c, kind, *_ in red:
+                    if any(x is c for x in ast.walk(n.value)):
+                        out.add(kind)
+                for x in ast.walk(n.value):
+                    if isinstance(x, ast.Name) and x.id != name and x.id not in seen:
+                        out |= origin(x.id, seen + (name,))
+        return out
     fl = [n for n in fm.node.body if isinstance(n, ast.For) and norm(n.iter) == "self.fields"]
-    st = [norm(n) for n in walk_no_nested(fm.node) if isinstance(n, ast.Assign) and norm(n.targets[0]) == "min_and_max[field]"]
+    ents = [n for n in walk_no_nested(fm.node) if isinstance(n, ast.Assign) and norm(n.targets[0]) == "min_and_max[field]"]
     br = [n for n in walk_no_nested(fm.node) if isinstance(n, ast.If) and norm(n.test) == "self.finest_lv"]
-    ctx.check(len(fl) == 1 and st == ["min_and_max[field] = (minimum, maximum, units)"] and len(br) == 1, f"{P}.EVERY-FIELD",
-              fm.site, "every header field gets exactly one (min, max, units) entry", f"entries: {st}")
+    shape_ok = len(fl) == 1 and len(ents) == 1 and isinstance(ents[0].value, ast.Tuple) and len(ents[0].value.elts) == 3 \
+        and all(isinstance(x, ast.Name) for x in ents[0].value.elts) and len(br) == 1
+    flow = [sorted(origin(x.id)) for x in ents[0].value.elts[:2]] if shape_ok else None
+    ctx.check(shape_ok and flow == [["min"], ["max"]] and norm(ents[0].value.elts[2]) == "units", f"{P}.EVERY-FIELD",
+              fm.site, "every header field gets exactly one (min, max, units) entry, the finest-level mode chosen by "
+                       "`finest_lv`",
+              f"entries: {[norm(x) for x in ents]}; their first two elements derive from {flow} reducers; mode tests: "
+              f"{[norm(n.test) for n in walk_no_nested(fm.node) if isinstance(n, ast.If) and 'self.' in norm(n.test)][:3]}",
+              semantic=len(ents) == 1)
     # PARITY-PAD
     sm = prog.func(ME, "Menu.show_min_max", P)
     d = sm.params[1]
